@@ -305,6 +305,17 @@ def check_threaded_storage(prog, rep):
             for c in _calls_named(st, 'self._waiting_for_load.add'):
                 key = unparse(c.args[0]) if c.args else '?'
                 rep.instance('TS-wait-load-pair', {'function': q, 'key': key})
+                # a second load task for a key that is still in flight writes _loaded[key] after
+                # the first result was consumed: no load is queued while the key is waiting
+                gs_ = {(t, pol) for t, pol, _ in guards_of(f, st)}
+                rep.instance('TS-no-duplicate-load', {'function': q, 'key': key})
+                if ('%s in self._waiting_for_load' % key, False) not in gs_:
+                    rep.violation('TS-no-duplicate-load', m, q, 'duplicate-load:' + key,
+                                  '`%s` queues a load for `%s` without having excluded that one '
+                                  'is already in flight (`%s not in self._waiting_for_load`): '
+                                  'the duplicate task re-inserts a stale _loaded[%s] after the '
+                                  'first result was consumed' % (key_text(st), key, key, key),
+                                  st.lineno)
                 blk = _sibling_block(st)
                 ok = False
                 for s2 in blk[blk.index(st) + 1:]:
@@ -1006,6 +1017,7 @@ def run(prog, rep, tier):
     check_dictcache(prog, rep)
     check_events(prog, rep)
     rep.floor('SYNC-get-task_done', 2)
+    check_exit_join(prog, rep)
     rep.floor('SYNC-timeout', 3)
     rep.floor('SYNC-publish-before-done', 1)
     rep.floor('TS-wait-load-pair', 2)
@@ -1032,3 +1044,44 @@ def run(prog, rep, tier):
         'tools/thread.py, tools/cache.py, tools/events.py by CFG path rules (must-follow, '
         'must-precede), coupled-update rules and value-depends-on-parameter dataflow. Each '
         'violation names the construct. Linearizability over all schedules is not decided.')
+
+
+def check_exit_join(prog, rep):
+    """SYNC-exit-join: Worker.__exit__ asks the worker to stop (`self.exit.set()`) and then waits
+    for it (`worker_thread.join()`) on EVERY path: callers (ThreadedStorage.__exit__ / close) go
+    on to close the disk storage, which a worker that is still running would write to."""
+    m = prog.module(THREAD)
+    f = m.func('Worker.__exit__')
+    cfg = CFG(f)
+    sets = [st for st in stmts_of(f) if _calls_named(st, 'self.exit.set') and not isinstance(
+        st, (ast.If, ast.For, ast.While, ast.Try, ast.With))]
+    if not sets:
+        raise AnalysisError('Worker.__exit__: self.exit.set() not found')
+
+    def is_join(n):
+        return n.stmt is not None and not isinstance(
+            n.stmt, (ast.If, ast.For, ast.While, ast.Try, ast.With)) and bool(
+                _calls_named(n.stmt, 'self.worker_thread.join'))
+    n = 0
+    for st in sets:
+        n += 1
+        todo = [x for nd in cfg.nodes_of(st) for x in cfg.normal_succ(nd)]
+        seen = set()
+        ok = True
+        while todo:
+            x = todo.pop()
+            if x.id in seen or is_join(x):
+                continue
+            seen.add(x.id)
+            if x is cfg.exit:
+                ok = False
+                break
+            todo.extend(cfg.normal_succ(x))
+        rep.instance('SYNC-exit-join', {'function': 'Worker.__exit__', 'after': key_text(st),
+                                        'join_on_all_paths': ok})
+        if not ok:
+            rep.violation('SYNC-exit-join', m, 'Worker.__exit__', 'exit-without-join',
+                          'after `self.exit.set()` a path leaves __exit__ without '
+                          '`self.worker_thread.join()`: the caller closes the storage while the '
+                          'worker may still be executing a queued save', st.lineno)
+    return n
